@@ -339,6 +339,10 @@ def r5_label_and_value(rep, ctx, RID="C03.R5"):
         t = res.term(st.value)
         args = list(t[2]) if t[0] == "call" else []
         val_ok = len(args) == 4 and any(x == ("param", fn.params.index(side), side) for x in alternatives(args[3]))
+        # the conversions of one side are chained: the value handed to a conversion is the running value, i.e. what an
+        # earlier conversion of the same side left (an entry converted after another must not restart from the original)
+        if val_ok and len(st.value.args) >= 4 and isinstance(st.value.args[3], ast.Name):
+            val_ok = any(o is st for o, _t in res.origins(st.value.args[3]))
         from_ok = len(args) == 4 and args[1] in unit_terms
         to_ok = len(args) == 4 and args[2] != args[1] and any(x[0] == "call" and x[1][0] == "attr" and x[1][2] == "get" for x in alternatives(args[2]))
         want_map = fn.params[1] if side == fn.params[3] else fn.params[2]
